@@ -17,7 +17,7 @@ def isHs (kind : String) : Bool := kind == "hs" || kind == "hsbad" || kind == "h
 def parseEv (t : String) : Option (Option Ev) :=
   match t.splitOn ":" with
   | ["cfg", _k, _flex, stream, tmo, maxread, strict, racy] =>
-    do some (some (.cfg (← maxread.toNat?) (← tmo.toNat?) (strict == "1") (racy == "1") (stream == "hugetags" || stream == "bodyhugetags")))
+    do some (some (.cfg (← maxread.toNat?) (← tmo.toNat?) (strict == "1") (racy == "1") (stream == "hugetags" || stream == "bodyhugetags") (stream.startsWith "sasl-")))
   | ["I", i, _key, t] => do some (some (.issue (← i.toNat?) (← t.toNat?)))
   | ["H", c, corr] => do some (some (.hsReq (← c.toNat?) (← corr.toNat?)))
   | ["W", c, corr, i, flex, t] => do some (some (.written ⟨← c.toNat?, ← corr.toNat?, ← i.toNat?, flex == "1", ← t.toNat?⟩))
@@ -33,6 +33,12 @@ def parseEv (t : String) : Option (Option Ev) :=
   | ["R", i, "ok", f, t] => do some (some (.ok (← i.toNat?) (← f.toInt?) (← t.toNat?)))
   | ["R", i, "err", cls, t] => do some (some (.err (← i.toNat?) (parseCls cls) (← t.toNat?)))
   | ["R", i, "none"] => do some (some (.never (← i.toNat?)))
+  | ["AB", c, n, t] => do some (some (.authBegin (← c.toNat?) (← n.toNat?) (← t.toNat?)))
+  | ["AE", c, n, life, t] => do some (some (.authEnd (← c.toNat?) (← n.toNat?) (← life.toNat?) (← t.toNat?)))
+  | ["AF", _c, _n, _t] => some none
+  | ["P", i, _n, t] => do some (some (.park (← i.toNat?) (← t.toNat?)))
+  | ["E", _ms, _t] => some none
+  | ["RA", _kind, _t] => some none
   | ["CPU", ms] => do some (some (.cpu (← ms.toNat?)))
   | ["Q"] => some (some .quiesce)
   | _ => none
